@@ -2,185 +2,10 @@ package erpc
 
 import (
 	"errors"
-	"io"
-	"net"
 	"reflect"
-	"sync"
-	"time"
 
-	"github.com/henrylee2cn/erpc/v6/socket"
 	"github.com/henrylee2cn/erpc/v6/xfer"
 )
-
-// ---------------------------------------------------------------- fake connection (stub S-CONN)
-
-type vxAddr string
-
-func (a vxAddr) Network() string { return "tcp" }
-func (a vxAddr) String() string  { return string(a) }
-
-// vxConn is a scripted net.Conn: Read delivers the bytes appended with feed()
-// and blocks while none are available until the stream is ended (EOF) or the
-// conn is closed; every Write is recorded whole.
-type vxConn struct {
-	mu        sync.Mutex
-	in        []byte
-	off       int
-	ended     bool // no more input will come: Read returns io.EOF when drained
-	closed    bool
-	closes    int
-	writesAtClose int
-	writes    [][]byte
-	failWrite error // if set, Write fails with it
-	local     vxAddr
-	remote    vxAddr
-	chunk     int
-}
-
-var errVxClosed = errors.New("use of closed network connection")
-
-func newVxConn(local, remote string) *vxConn {
-	return &vxConn{local: vxAddr(local), remote: vxAddr(remote)}
-}
-
-func (c *vxConn) feed(b []byte) {
-	c.mu.Lock()
-	c.in = append(c.in, b...)
-	c.mu.Unlock()
-}
-
-func (c *vxConn) end() {
-	c.mu.Lock()
-	c.ended = true
-	c.mu.Unlock()
-}
-
-func (c *vxConn) readable() bool {
-	c.mu.Lock()
-	defer c.mu.Unlock()
-	return c.off < len(c.in) || c.ended || c.closed
-}
-
-func (c *vxConn) Read(p []byte) (int, error) {
-	vxWaitUntil(c.readable)
-	c.mu.Lock()
-	defer c.mu.Unlock()
-	if c.closed {
-		return 0, errVxClosed
-	}
-	if c.off >= len(c.in) {
-		return 0, io.EOF
-	}
-	n := len(p)
-	if c.chunk > 0 && n > c.chunk {
-		n = c.chunk
-	}
-	if n > len(c.in)-c.off {
-		n = len(c.in) - c.off
-	}
-	copy(p, c.in[c.off:c.off+n])
-	c.off += n
-	return n, nil
-}
-
-func (c *vxConn) Write(p []byte) (int, error) {
-	c.mu.Lock()
-	defer c.mu.Unlock()
-	if c.closed {
-		return 0, errVxClosed
-	}
-	if c.failWrite != nil {
-		return 0, c.failWrite
-	}
-	c.writes = append(c.writes, append([]byte{}, p...))
-	vxEvent("conn.write")
-	return len(p), nil
-}
-
-func (c *vxConn) Close() error {
-	c.mu.Lock()
-	if !c.closed {
-		c.writesAtClose = len(c.writes)
-	}
-	c.closed = true
-	c.closes++
-	c.mu.Unlock()
-	vxEvent("conn.close")
-	return nil
-}
-
-func (c *vxConn) isClosed() bool {
-	c.mu.Lock()
-	defer c.mu.Unlock()
-	return c.closed
-}
-
-func (c *vxConn) nWrites() int {
-	c.mu.Lock()
-	defer c.mu.Unlock()
-	return len(c.writes)
-}
-
-func (c *vxConn) LocalAddr() net.Addr                { return c.local }
-func (c *vxConn) RemoteAddr() net.Addr               { return c.remote }
-func (c *vxConn) SetDeadline(t time.Time) error      { return nil }
-func (c *vxConn) SetReadDeadline(t time.Time) error  { return nil }
-func (c *vxConn) SetWriteDeadline(t time.Time) error { return nil }
-
-// ---------------------------------------------------------------- frames
-
-type vxSink struct{ data []byte }
-
-func (s *vxSink) Write(p []byte) (int, error) { s.data = append(s.data, p...); return len(p), nil }
-func (s *vxSink) Read(p []byte) (int, error)  { return 0, io.EOF }
-
-// vxFrame packs a message with the real raw protocol and returns its bytes.
-func vxFrame(mtype byte, seq int32, method string, body []byte, settings ...socket.MessageSetting) []byte {
-	m := socket.NewMessage(settings...)
-	m.SetMtype(mtype)
-	m.SetSeq(seq)
-	m.SetServiceMethod(method)
-	if m.BodyCodec() == 0 {
-		m.SetBodyCodec('s')
-	}
-	if body != nil {
-		m.SetBody(body)
-	}
-	s := &vxSink{}
-	if err := socket.RawProtoFunc(s).Pack(m); err != nil {
-		panic("vxFrame: " + err.Error())
-	}
-	return s.data
-}
-
-type vxSrc struct {
-	data []byte
-	off  int
-}
-
-func (s *vxSrc) Write(p []byte) (int, error) { return len(p), nil }
-func (s *vxSrc) Read(p []byte) (int, error) {
-	if s.off >= len(s.data) {
-		return 0, io.EOF
-	}
-	n := copy(p, s.data[s.off:])
-	s.off += n
-	return n, nil
-}
-
-// vxParse decodes one frame written by the code under test (raw protocol).
-func vxParse(frame []byte) (socket.Message, error) {
-	m := socket.NewMessage(socket.WithNewBody(func(socket.Header) interface{} { return new([]byte) }))
-	err := socket.RawProtoFunc(&vxSrc{data: frame}).Unpack(m)
-	return m, err
-}
-
-func vxBodyOf(m socket.Message) []byte {
-	if b, ok := m.Body().(*[]byte); ok && b != nil {
-		return *b
-	}
-	return nil
-}
 
 // ---------------------------------------------------------------- routes without reflection on controllers
 
@@ -274,3 +99,46 @@ func (vxFilter) OnUnpack(b []byte) ([]byte, error) {
 }
 
 func init() { xfer.Reg(vxFilter{}) }
+
+// ---------------------------------------------------------------- C15: framework statuses are immutable
+
+type vxStatSnap struct {
+	name  string
+	st    *Status
+	code  int32
+	msg   string
+	cause string
+}
+
+func vxCauseStr(s *Status) string {
+	if c := s.Cause(); c != nil {
+		return c.Error()
+	}
+	return ""
+}
+
+// vxSnapSentinels records the predefined statuses; vxCheckSentinels asserts
+// that none of them was altered since.
+func vxSnapSentinels() []vxStatSnap {
+	all := map[string]*Status{
+		"statConnClosed": statConnClosed, "statWriteFailed": statWriteFailed, "statDialFailed": statDialFailed,
+		"statBadMessage": statBadMessage, "statNotFound": statNotFound, "statCodeMtypeNotAllowed": statCodeMtypeNotAllowed,
+		"statInternalServerError": statInternalServerError, "statUnpreparedError": statUnpreparedError,
+		"statInvalidOpError": statInvalidOpError, "statUnknownError": statUnknownError, "statHandleTimeout": statHandleTimeout,
+	}
+	names := []string{"statConnClosed", "statWriteFailed", "statDialFailed", "statBadMessage", "statNotFound", "statCodeMtypeNotAllowed", "statInternalServerError", "statUnpreparedError", "statInvalidOpError", "statUnknownError", "statHandleTimeout"}
+	var out []vxStatSnap
+	for _, n := range names {
+		s := all[n]
+		out = append(out, vxStatSnap{n, s, s.Code(), s.Msg(), vxCauseStr(s)})
+	}
+	return out
+}
+
+func vxCheckSentinels(snaps []vxStatSnap) {
+	for _, sn := range snaps {
+		vxAssert(sn.st.Code() == sn.code, "[C15] predefined status code unchanged: "+sn.name)
+		vxAssert(sn.st.Msg() == sn.msg, "[C15] predefined status message unchanged: "+sn.name)
+		vxAssert(vxCauseStr(sn.st) == sn.cause, "[C15] predefined status cause unchanged: "+sn.name)
+	}
+}
